@@ -11,7 +11,7 @@ RULE = ("cases = every 1-D array of length 1..Lmax over a 2-4 letter alphabet pe
 ASSUMPTIONS = ["oracle: the dense array itself (element-wise ==, NaN matches NaN, dtype, length/size/shape)",
                "canonical form is read through the public starts / ends / values / len only",
                "'no equal adjacent values' is demanded exactly for the producers the statement lists: encoding, stepped slicing, ufuncs on two run-length operands"]
-REQUIRED_FEATURES = ["input_not_contiguous", "producer_binary_nan", "producer_binary_of_derived_operands", "single_run", "all_different", "nan_values", "signed_zero", "producer_slice", "producer_step", "producer_binary", "producer_concat",
+REQUIRED_FEATURES = ["input_not_contiguous", "decoded_twice", "producer_binary_nan", "producer_binary_of_derived_operands", "single_run", "all_different", "nan_values", "signed_zero", "producer_slice", "producer_step", "producer_binary", "producer_concat",
                      "producer_mask", "result_needed_rejoin", "producer_step_of_unjoined_operand"]
 BOUNDS = {"quick": "all arrays L<=6 (bool, int8, int64, uint8, uint64, float16/32/64; 3-letter alphabets, 4 for float32/64 at L<=5); producers over all "
                    "int64 arrays L<=4: every in-range slice with steps +-1..3, add/maximum/equal of every pair (L<=3), scalar ops, concatenate pairs, run-length masks; inputs as reversed / strided / matrix-column views; NaN / inf binary producers; stepped slices of an unjoined operand",
@@ -76,6 +76,19 @@ def _check_enc(case, acc):
         acc.outcome(o)
         if o != exp:
             acc.fail(f"{name}-differs", exp, o)
+    # decoding twice: what the caller does to the first decoded array (sorting it, overwriting it) must not show in the second
+    def twice():
+        x = RunLengthArray.from_array(a.copy())
+        d1 = np.asarray(x.to_array())
+        if d1.flags.writeable and d1.size:
+            d1[...] = d1[::-1].copy()
+            d1[0] = d1[-1]
+        return (dense_obs(decode(x)), dense_obs(np.asarray(x)))
+    o = attempt(twice)
+    acc.trans()
+    acc.feature("decoded_twice")
+    if o != (exp, exp):
+        acc.fail("second-decode-differs", (exp, exp), o)
     # the same values handed over in other memory layouts (views of a larger buffer): reversed, every other cell, a matrix column
     if L:
         acc.feature("input_not_contiguous")
